@@ -51,6 +51,7 @@ theorem invB_uBody {cfg : Cfg} {s : St} {p} (hE : InvE s) (hF : InvF s) (h : Inv
         exact invB_callUndeploy (invB_of_bad_eq h rfl) (by simpa using this)
       · split <;> exact invB_of_bad_eq h rfl
   · exact invB_of_bad_eq h rfl
+  · exact invB_of_bad_eq h rfl
 
 theorem invB_step {cfg : Cfg} {s a s'} (hE : InvE s) (hF : InvF s) (h : InvB s) (hs : step cfg s a = some s') : InvB s' := by
   have hF' := hF
